@@ -255,7 +255,7 @@ def judge_batch(job):
     vmode = job[6] if len(job) > 6 else None
     T.setup_repo()
     out = {'viol': [], 'states': 0, 'values': 0, 'exec': 0, 'rejected': [], 'samples': [], 'skipped_design': 0,
-           'excluded_greedy': 0, 'nontrivial': 0}
+           'excluded_greedy': 0, 'nontrivial': 0, 'op_cases': {}}
     try:
         accepted = [st for st in states if full_generator_accepts(st)]
         out['skipped_design'] = len(states) - len(accepted)
@@ -306,6 +306,12 @@ def judge_batch(job):
                             out['nontrivial'] += 1
                         for ename, e in ENDIANS:
                             cases.append(('%s.%s' % (cid, ename), top, ename, 'dec', le if e == '<' else be))
+                            if 'C05' in props and ename != 'native':
+                                for op in ops:
+                                    if op == 'fresh' and vi:
+                                        continue        # one default-constructed object per type and byte order
+                                    cases.append(('%s.%s.%s' % (cid, ename, op), top, ename, op, le if e == '<' else be))
+                                    out['op_cases'][op] = out['op_cases'].get(op, 0) + 1
                         if getattr(prep, 'pymod', None) is not None:
                             # what the Python codec wrote, where it differs from the documented bytes
                             for ename, e in ENDIANS[:2]:
@@ -316,9 +322,6 @@ def judge_batch(job):
                                 if pyb != (le if e == '<' else be):
                                     cases.append(('%s.%s.py' % (cid, ename), top, ename, 'dec', pyb))
                                     meta.setdefault('py', {})[(cid, ename)] = pyb
-                            if 'C05' in props and ename != 'native':
-                                for op in ops:
-                                    cases.append(('%s.%s.%s' % (cid, ename, op), top, ename, op, le if e == '<' else be))
                 results = D.run_driver(prep.exe, cases)
                 out['exec'] += len(cases)
                 for cid, mv in meta.items():
@@ -404,6 +407,9 @@ def run_cpp(ctx, props, ops=(), vcap=None, states=None, vmode=None):
         ctx.cov['evaluations'] += res['exec']
         ctx.cov['distinct_nontrivial'] += res['nontrivial']
         ctx.cov['cpp_excluded_greedy'] = ctx.cov.get('cpp_excluded_greedy', 0) + res['excluded_greedy']
+        for op, n in res.get('op_cases', {}).items():
+            ctx.cov.setdefault('cases_per_mutation_op', {})
+            ctx.cov['cases_per_mutation_op'][op] = ctx.cov['cases_per_mutation_op'].get(op, 0) + n
         skipped += res['skipped_design']
         rejected += res['rejected']
         for s in res['samples']:
@@ -420,6 +426,9 @@ def run_cpp(ctx, props, ops=(), vcap=None, states=None, vmode=None):
                 ctx.violations.setdefault(key, [])
     for key in [k for k, v in ctx.violations.items() if not v]:
         del ctx.violations[key]
+    for op in ops:
+        if not ctx.cov.get('cases_per_mutation_op', {}).get(op):
+            raise HarnessError('vacuous: no case ran the mutation op %r' % op)
     ctx.cov['cpp_schema_states'] = cstates
     ctx.cov['cpp_states_refused_by_design'] = skipped
     ctx.cov['cpp_rejected_states'] = len(rejected)
